@@ -474,7 +474,10 @@ def gen_value(rng, pre3, depth=2):
         if r < 0.85:
             d = {}
             for _ in range(rng.choice([0, 1, 2, 3])):
-                d[gen_name(rng)] = gen_value(rng, pre3, depth - 1)
+                # now and then a tag name that the JSON encoding of grids also uses (a dict is data unless it has ALL of meta, cols, rows)
+                d[rng.choice(RESERVED_TAGS) if rng.random() < 0.12 else gen_name(rng)] = gen_value(rng, pre3, depth - 1)
+            if {'meta', 'cols', 'rows'} <= set(d):
+                del d['rows']
             return d
         return gen_grid(rng, '3.0', depth - 1, small=True)
     return gen_scalar(rng, pre3)
@@ -509,6 +512,38 @@ def gen_grid(rng, ver=None, depth=2, small=False):
                 row[n] = gen_value(rng, pre3, depth)
         g.append(row)
     return g
+
+
+RESERVED_TAGS = ['meta', 'cols', 'rows', 'ver', 'name', 'id', 'dis']
+
+
+def reserved_tag_grids(flat=False):
+    """(flat: scalar values only and no further nesting - pyparsing needs tens of seconds per grid for the nested form)
+    3.0 grids whose dict values use the tag names of the JSON grid encoding (every subset of meta / cols / rows but the full
+    one, with values shaped like the real thing or not) in cells, list items, nested dicts, grid and column metadata"""
+    h = H()
+    import itertools
+    shapes = {'meta': [{'ver': '3.0'}, 'x', {}], 'cols': [[{'name': 'a'}], [], 1.0], 'rows': [[], [{'a': 1.0}], 'r']}
+    if flat:
+        shapes = {'meta': ['3.0', 'x', h.MARKER], 'cols': ['a', 2.0, 1.0], 'rows': [h.NA, 1.0, 'r']}
+    dicts = []
+    for n in (1, 2):
+        for keys in itertools.combinations(['meta', 'cols', 'rows'], n):
+            for variant in range(3):
+                d = {k: shapes[k][variant] for k in keys}
+                dicts.append(d)
+                dicts.append(dict(d, other=h.MARKER))
+    out = []
+    for i in range(0, len(dicts), 6):
+        chunk = dicts[i:i + 6]
+        g = h.Grid(version='3.0')
+        g.metadata['m'] = chunk[0]
+        g.column['a'] = {'cm': chunk[1 % len(chunk)]}
+        g.column['b'] = {}
+        for d in chunk:
+            g.append({'a': d, 'b': 1.0 if flat else [d, {'inner': d}]})
+        out.append(g)
+    return out
 
 
 def zone_sweep_grids(rng, per_grid=64):
